@@ -209,7 +209,7 @@ func genRead(g *Gen) {
 		}
 	}
 	// 2. structured random sequences of valid frames with one optional violation
-	nSeq := g.pick(400, 4000)
+	nSeq := g.pick(1500, 6000)
 	for i := 0; i < nSeq; i++ {
 		c := readCfg{server: g.R.Bool(), pd: g.R.Bool(), dpsBits: -1, limit: []int{16, 125, 126, 1000, 70000}[g.R.Intn(5)], utf8: g.R.Bool()}
 		if c.pd && g.R.Bool() {
